@@ -2,8 +2,14 @@ package main
 
 import "github.com/runreveal/pql"
 
+// pqlCompile compiles with the given parameters.  Without parameters it alternates (by the
+// source's length) between the package-level Compile and a CompileOptions value whose
+// Parameters map is nil: the two must behave alike.
 func pqlCompile(params map[string]string, src string) (string, error) {
 	if params == nil {
+		if len(src)%2 == 1 {
+			return (&pql.CompileOptions{}).Compile(src)
+		}
 		return pql.Compile(src)
 	}
 	return (&pql.CompileOptions{Parameters: params}).Compile(src)
